@@ -1,1 +1,27 @@
-fn main() { println!("hello"); }
+//! Conformance harness binding spec/*.tla to the implementation in /repo.
+//!
+//! `harness gen <what>`    writes seeded instances (cases) for TLC to evaluate
+//! `harness replay <what>` replays behaviours emitted by TLC into the real code and compares
+//! `harness record <what>` drives the real code and records traces for TLC to validate
+mod eval;
+mod rng;
+mod tree;
+mod util;
+
+use util::Args;
+
+fn main() {
+    // panics of the code under test are data: keep the default hook quiet
+    std::panic::set_hook(Box::new(|_| {}));
+    let raw: Vec<String> = std::env::args().skip(1).collect();
+    let args = Args::parse(&raw);
+    let cmd: Vec<&str> = args.pos.iter().map(|s| s.as_str()).collect();
+    match cmd.as_slice() {
+        ["gen", "eval"] => eval::gen(&args),
+        ["replay", "eval"] => eval::replay(&args),
+        other => {
+            eprintln!("unknown command {other:?}");
+            std::process::exit(2);
+        }
+    }
+}
